@@ -47,6 +47,8 @@ Emit == done => PrintT(<<"REPLAY", ToJson([kind |-> "loop", seed |-> 11,
                         <<"proxy-authorization", "Basic Y2FsbGVyOmhkcg==">>, <<"cookie", "a=1">>, <<"cookie", "b=2", TRUE>>>>, params |-> <<>>],
    settings |-> [follow |-> TRUE, maxRedir |-> 5, proxy |-> row.px],
    nodes |-> nodes, connect |-> [status |-> 200, valid |-> TRUE],
+   \* half of the rows prepare the request once and send it twice: the second send() is the same request again
+   resend |-> (row.len = 7),
    secrets |-> <<"SECRET-TOKEN-1", "kept-value">>])>>)
 \* (hosts: the Host field of a hop whose URL names credentials must still be host[:port] only - guard G08_host)
 =============================================================================
